@@ -492,12 +492,12 @@ Inductive append_res := AppOk | AppErr (reason : option N).
 
 Definition retain_update (st : rstate) (topic : str) (p : publish) (props : option pprops) : rstate :=
   let dl := r_datalog st in
-  match p_payload p with
-  | [] => set_r_datalog st (set_dl_retained dl (al_remove str_eqb topic (dl_retained dl)))
-  | _ => if p_retain p
-         then set_r_datalog st (set_dl_retained dl (al_set str_eqb topic (p, props) (dl_retained dl)))
-         else st
-  end.
+  if p_retain p then
+    match p_payload p with
+    | [] => set_r_datalog st (set_dl_retained dl (al_remove str_eqb topic (dl_retained dl)))
+    | _ => set_r_datalog st (set_dl_retained dl (al_set str_eqb topic (p, props) (dl_retained dl)))
+    end
+  else st.
 
 Definition append_to_commitlog (st : rstate) (id : N) (p : publish) (props : option pprops)
   : R (rstate * append_res) :=
@@ -761,51 +761,57 @@ Fixpoint subscribe_filters (st : rstate) (id : N) (fs : list (str * N)) (subid :
           subscribe_filters st2 id r subid fl (codes ++ [qos])
   end.
 
-Fixpoint unsubscribe_filters (st : rstate) (id : N) (client : str) (pkid : N) (fs : list str) (fl : flags)
-  : R (rstate * flags) :=
+Definition UR_SUCCESS : N := 0.           (* UnsubAckReason::Success *)
+Definition UR_NO_SUB : N := 17.           (* UnsubAckReason::NoSubscriptionExisted *)
+
+(** the loop over the filters of an UNSUBSCRIBE; collects one reason code per filter *)
+Fixpoint unsubscribe_filters (st : rstate) (id : N) (client : str) (fs : list str) (reasons : list N)
+  : R (rstate * list N) :=
   match fs with
-  | [] => Ok (st, fl)
+  | [] => Ok (st, reasons)
   | f :: r =>
-      match al_get str_eqb f (r_submap st) with
-      | None => unsubscribe_filters st id client pkid r fl
-      | Some ids =>
-          if negb (set_mem N.eqb id ids) then unsubscribe_filters st id client pkid r fl
-          else
-            let st1 := set_r_submap st (al_set str_eqb f (set_del N.eqb id ids) (r_submap st)) in
-            do conn <- get_conn st1 id;
-            if negb (set_mem str_eqb f (c_subs conn)) then unsubscribe_filters st1 id client pkid r fl
-            else
-              let conn1 := {| c_client := c_client conn; c_dynamic := c_dynamic conn; c_clean := c_clean conn;
-                              c_subs := set_del str_eqb f (c_subs conn); c_will := c_will conn;
-                              c_aliases := c_aliases conn;
-                              c_baliases := match c_baliases conn with
-                                            | Some b => Some (ba_remove_alias b f)
-                                            | None => None
-                                            end;
-                              c_subids := al_remove str_eqb f (c_subids conn) |} in
-              let groups :=
-                match extract_group f with
-                | Some (gname, _) =>
-                    match al_get str_eqb gname (r_groups st1) with
-                    | Some g =>
-                        let g' := group_remove_client g client in
-                        match g_clients g' with
-                        | [] => al_remove str_eqb gname (r_groups st1)
-                        | _ => al_set str_eqb gname g' (r_groups st1)
-                        end
-                    | None => r_groups st1
+      let removed := match al_get str_eqb f (r_submap st) with
+                     | Some ids => set_mem N.eqb id ids
+                     | None => false
+                     end in
+      if negb removed then unsubscribe_filters st id client r (reasons ++ [UR_NO_SUB])
+      else
+        let st1 := match al_get str_eqb f (r_submap st) with
+                   | Some ids => set_r_submap st (al_set str_eqb f (set_del N.eqb id ids) (r_submap st))
+                   | None => st
+                   end in
+        do conn <- get_conn st1 id;
+        if negb (set_mem str_eqb f (c_subs conn)) then unsubscribe_filters st1 id client r (reasons ++ [UR_NO_SUB])
+        else
+          let conn1 := {| c_client := c_client conn; c_dynamic := c_dynamic conn; c_clean := c_clean conn;
+                          c_subs := set_del str_eqb f (c_subs conn); c_will := c_will conn;
+                          c_aliases := c_aliases conn;
+                          c_baliases := match c_baliases conn with
+                                        | Some b => Some (ba_remove_alias b f)
+                                        | None => None
+                                        end;
+                          c_subids := al_remove str_eqb f (c_subids conn) |} in
+          let groups :=
+            match extract_group f with
+            | Some (gname, _) =>
+                match al_get str_eqb gname (r_groups st1) with
+                | Some g =>
+                    let g' := group_remove_client g client in
+                    match g_clients g' with
+                    | [] => al_remove str_eqb gname (r_groups st1)
+                    | _ => al_set str_eqb gname g' (r_groups st1)
                     end
                 | None => r_groups st1
-                end in
-              let st2 := set_r_groups (put_conn st1 id conn1) groups in
-              do st3 <- commit_ack st2 id (AUnsubAck pkid);
-              do st4 <- untrack st3 id f;
-              do st5 <- remove_waiters_for_id st4 id f;
-              let st6 := set_r_notif st5
-                    (filter (fun x : N * drequest => negb ((fst x =? id) && str_eqb (dr_filter (snd x)) f))
-                            (r_notif st5)) in
-              unsubscribe_filters st6 id client pkid r (fl_ack fl)
-      end
+                end
+            | None => r_groups st1
+            end in
+          let st2 := set_r_groups (put_conn st1 id conn1) groups in
+          do st4 <- untrack st2 id f;
+          do st5 <- remove_waiters_for_id st4 id f;
+          let st6 := set_r_notif st5
+                (filter (fun x : N * drequest => negb ((fst x =? id) && str_eqb (dr_filter (snd x)) f))
+                        (r_notif st5)) in
+          unsubscribe_filters st6 id client r (reasons ++ [UR_SUCCESS])
   end.
 
 (** one packet of the batch; [true] in the result = [break] *)
@@ -832,8 +838,9 @@ Definition handle_packet (st : rstate) (id : N) (client : str) (pk : packet) (fl
       Ok (st2, fl_ack fl1, false)
   | PUnsubscribe pkid fs =>
       do _ <- get_conn st id;
-      do (st1, fl1) <- unsubscribe_filters st id client pkid fs fl;
-      Ok (st1, fl1, false)
+      do (st1, reasons) <- unsubscribe_filters st id client fs [];
+      do st2 <- commit_ack st1 id (AUnsubAck pkid reasons);
+      Ok (st2, fl_ack fl, false)
   | PPubAck pkid =>
       do o <- get_obuf st id;
       let '(o', ok) := register_ack o pkid in
@@ -850,7 +857,7 @@ Definition handle_packet (st : rstate) (id : N) (client : str) (pk : packet) (fl
         do st3 <- reschedule st2 id SIncomingAck;
         Ok (st3, fl, false)
       else Ok (put_obuf st id o', fl_disc fl None, true)
-  | PPubRel pkid false =>
+  | PPubRel pkid _ =>
       do l <- get_acks st id;
       let committed := a_committed l ++ [APubComp pkid] in
       match a_recorded l with
@@ -863,7 +870,6 @@ Definition handle_packet (st : rstate) (id : N) (client : str) (pk : packet) (fl
           | AppErr _ => Ok (st2, fl_disc fl None, true)
           end
       end
-  | PPubRel _ true => Ok (st, fl, false)           (* falls into the catch-all arm: ignored *)
   | PPubComp pkid =>
       do o <- get_obuf st id;
       let '(o', ok) := register_pubcomp o pkid in
@@ -1006,22 +1012,21 @@ Definition forward_device_data (st : rstate) (id : N) (rq : drequest)
               else number_forwards o (dr_idx rq2) forwards in
             let st3 := put_obuf st2 id o1 in
             do (st4, len) <- push_out st3 (o_link o1) notifs;
+            do st5 <-
+              (match sg with
+               | Some (name, _) =>
+                   match al_get str_eqb name (r_groups st4) with
+                   | Some g =>
+                       do (st', g') <- update_next_client st4 g;
+                       Ok (set_r_groups st' (al_set str_eqb name (set_g_cursor g' (dr_cursor rq2)) (r_groups st')))
+                   | None => Ok st4
+                   end
+               | None => Ok st4
+               end);
             if MAX_CHANNEL_CAPACITY - 1 <=? len then
-              do (st5, _) <- push_out st4 (o_link o1) [NUnschedule];
-              Ok (st5, rq2, BufferFull)
+              do (st6, _) <- push_out st5 (o_link o1) [NUnschedule];
+              Ok (st6, rq2, BufferFull)
             else
-              do st5 <-
-                (match sg with
-                 | Some (name, _) =>
-                     (* the group may have been touched only through st: re-read it *)
-                     match al_get str_eqb name (r_groups st4) with
-                     | Some g =>
-                         do (st', g') <- update_next_client st4 g;
-                         Ok (set_r_groups st' (al_set str_eqb name (set_g_cursor g' (dr_cursor rq2)) (r_groups st')))
-                     | None => Ok st4
-                     end
-                 | None => Ok st4
-                 end);
               Ok (st5, rq2, if caughtup then FilterCaughtup else PartialRead)
       end.
 
